@@ -114,3 +114,104 @@ CONTRACTS['modularity_finetune_dir'] = Contract(
     ghost_before={"_, ci = np.unique(ci, return_inverse=True)#1": "ci_before_final = snapshot(ci)",
                   "return (ci, q)": "assume(lemma_q_from_aggregate(w, lam2(lambda a, b: w[a, b] / s, m), W, ci, gamma, s, m, n))"},
     ensures=CONTRACTS['modularity_finetune_und'].ensures)
+
+
+# ---- one hierarchy level of the Louvain routines (fragment contracts) ---------------------------------------------------------------
+# The fragment is the body of `while True:` from the initialisation of the bookkeeping to the end of the node-moving sweeps,
+# for an ARBITRARY current working matrix W (the aggregated network of the level) and the fixed total s.
+# ASSUMED at fragment entry (not proved here; preserved by aggregation: Lean agg lemmas): W is n x n, s == tsum(W) > 0, symmetric (und).
+def _setup_level(eng, st):
+    n = z3.Int('n')
+    st.pc.append(n >= 1)
+    st.env['n'] = n
+    st.ghost['n0'] = n
+    st.env['W'] = alloc(st, 2, z3.Const('Wlevel', A2R), (n, n), REAL)
+    st.env['s'] = z3.Real('s')
+    st.env['gamma'] = z3.Real('gamma')
+    st.env['rng'] = Opaque('rng')
+    st.env['h'] = z3.Int('h')
+
+
+KINV_LOUV_UND = [
+    ('K1-node-to-module-sums', RNG % "Knm[x, m] == modsum(W, mlab, x, m, n)".replace('mlab', 'm_')),
+]
+
+
+def _louv_inv(knm, kvec, km, lab):
+    return [
+        ('K1-node-to-module-sums', "forall(lambda x, mm: implies(And(inr(x, n), inr(mm, n)), %s[x, mm] == modsum(W, %s, x, mm, n)))" % (knm, lab)),
+        ('K2-node-degrees', "forall(lambda x: implies(inr(x, n), %s[x] == rsum(W, x, n)))" % kvec),
+        ('K3-module-degrees', "forall(lambda mm: implies(inr(mm, n), %s[mm] == degsum(W, %s, mm, n)))" % (km, lab)),
+        ('LAB-labels-in-range', "forall(lambda y: implies(inr(y, n), And(%s[y] >= 1, %s[y] <= n)))" % (lab, lab)),
+        ('QMONO-never-below-level-start', "Qmod(W, %s, gamma, n) >= Qmod(W, m0, gamma, n)" % lab),
+        ('FRAME-level-matrix-untouched', "And(s == tsum(W, n), n == n0)"),
+    ]
+
+
+CONTRACTS['modularity_louvain_und#level'] = Contract(
+    MOD, 'modularity_louvain_und', ['W', 'gamma', 'hierarchy', 'seed'], setup=_setup_level, key='modularity_louvain_und#level', nonlinear='uf',
+    fragment=('k = np.sum(W, axis=0)', 'while flag'),
+    requires=[('level-matrix-symmetric', "forall(lambda x, y: implies(And(inr(x, n0), inr(y, n0)), W[x, y] == W[y, x]))"), ('total-weight', "And(s == tsum(W, n0), s > 0)")],
+    loops={'while flag': {'name': 'sweeps', 'inv': _louv_inv('Knm', 'k', 'Km', 'm')}, 'for i in rng.permutation(n)': {'name': 'moves', 'inv': _louv_inv('Knm', 'k', 'Km', 'm')}},
+    ghost_after={'m = np.arange(n) + 1': "m0 = snapshot(m); assume(lemma_modularity(W, m, n))",
+                 'ma = m[i] - 1': "assume(lemma_modularity(W, m, n))",
+                 'j = np.argmax(dQ)': "check('argmax-attains-max', dQ[j] == max_dq); check('move-changes-module', j != ma); "
+                                      "check('gain-is-the-lemma-expression', dQ[j] == (modsum(W, m, i, j, n) - modsum(W, m, i, ma, n) + W[i, i]) - gamma * rsum(W, i, n) * (degsum(W, m, j, n) - degsum(W, m, ma, n) + rsum(W, i, n)) / s)"},
+    ensures=[('level-never-lowers-Q', "Qmod(W, m, gamma, n0) >= Qmod(W, m0, gamma, n0)"),
+             ('bookkeeping-consistent-at-level-end', "forall(lambda x, mm: implies(And(inr(x, n0), inr(mm, n0)), Knm[x, mm] == modsum(W, m, x, mm, n0)))")])
+
+
+def _louv_inv_dir():
+    return [
+        ('K1o-node-to-module-out-sums', "forall(lambda x, mm: implies(And(inr(x, n), inr(mm, n)), knm_o[x, mm] == modsum(W, m, x, mm, n)))"),
+        ('K1i-node-to-module-in-sums', "forall(lambda x, mm: implies(And(inr(x, n), inr(mm, n)), knm_i[x, mm] == modsumT(W, m, x, mm, n)))"),
+        ('K2-node-degrees', "forall(lambda x: implies(inr(x, n), And(k_o[x] == rsum(W, x, n), k_i[x] == csum(W, x, n))))"),
+        ('K3-module-degrees', "forall(lambda mm: implies(inr(mm, n), And(km_o[mm] == degsum(W, m, mm, n), km_i[mm] == degsumT(W, m, mm, n))))"),
+        ('LAB-labels-in-range', "forall(lambda y: implies(inr(y, n), And(m[y] >= 1, m[y] <= n)))"),
+        ('QMONO-never-below-level-start', "Qmod(W, m, gamma, n) >= Qmod(W, m0, gamma, n)"),
+        ('FRAME-level-matrix-untouched', "And(s == tsum(W, n), n == n0)"),
+    ]
+
+
+CONTRACTS['modularity_louvain_dir#level'] = Contract(
+    MOD, 'modularity_louvain_dir', ['W', 'gamma', 'hierarchy', 'seed'], setup=_setup_level, key='modularity_louvain_dir#level', nonlinear='uf',
+    fragment=('k_o = np.sum(W, axis=1)', 'while flag'),
+    requires=[('total-weight', "And(s == tsum(W, n0), s > 0)")],
+    loops={'while flag': {'name': 'sweeps', 'inv': _louv_inv_dir()}, 'for u in rng.permutation(n)': {'name': 'moves', 'inv': _louv_inv_dir()}},
+    ghost_after={'m = np.arange(n) + 1': "m0 = snapshot(m); assume(lemma_modularity(W, m, n))",
+                 'ma = m[u] - 1': "assume(lemma_modularity(W, m, n))",
+                 'mb = np.argmax(dq)': "check('argmax-attains-max', dq[mb] == max_dq); check('move-changes-module', mb != ma)"},
+    ensures=[('level-never-lowers-Q', "Qmod(W, m, gamma, n0) >= Qmod(W, m0, gamma, n0)")],
+    notes='KNOWN FINDING on the pinned tree: knm_i is initialised untransposed and the updates are exchanged; K1i / QMONO do not discharge for asymmetric W.')
+
+
+def _setup_cl(eng, st):
+    n = z3.Int('n')
+    st.pc.append(n >= 1)
+    st.env['n'] = n
+    st.ghost['n0'] = n
+    st.env['B'] = alloc(st, 2, z3.Const('Bkernel', A2R), (n, n), REAL)
+    st.env['Hnm'] = alloc(st, 2, z3.Const('Hnm_in', A2R), (n, n), REAL)
+    st.env['H'] = alloc(st, 1, z3.Const('H_in', z3.ArraySort(INT, REAL)), (n,), REAL)
+    st.env['Hm'] = alloc(st, 1, z3.Const('Hm_in', z3.ArraySort(INT, REAL)), (n,), REAL)
+    st.env['Mb'] = alloc(st, 1, z3.Const('Mb_in', A1I), (n,), INT)
+    st.env['rng'] = Opaque('rng')
+
+
+CL_INV = [
+    ('K1-node-to-module-sums', "forall(lambda x, mm: implies(And(inr(x, n), inr(mm, n)), Hnm[x, mm] == modsum(B, Mb, x, mm, n)))"),
+    ('LAB-labels-in-range', "forall(lambda y: implies(inr(y, n), And(Mb[y] >= 1, Mb[y] <= n)))"),
+    ('QMONO-objective-never-below-level-start', "QrawB(B, Mb, n) >= QrawB(B, Mb0, n)"),
+    ('FRAME', "n == n0"),
+]
+CONTRACTS['community_louvain#level'] = Contract(
+    MOD, 'community_louvain', ['W', 'gamma', 'ci', 'B', 'seed'], setup=_setup_cl, key='community_louvain#level',
+    fragment=('it = 0', 'while flag'),
+    requires=[('objective-matrix-symmetric', "forall(lambda x, y: implies(And(inr(x, n0), inr(y, n0)), B[x, y] == B[y, x]))"),
+              ('bookkeeping-consistent-at-level-start', "forall(lambda x, mm: implies(And(inr(x, n0), inr(mm, n0)), Hnm[x, mm] == modsum(B, Mb, x, mm, n0)))"),
+              ('labels-in-range', "forall(lambda y: implies(inr(y, n0), And(Mb[y] >= 1, Mb[y] <= n0)))")],
+    loops={'while flag': {'name': 'sweeps', 'inv': CL_INV}, 'for u in rng.permutation(n)': {'name': 'moves', 'inv': CL_INV}},
+    ghost_after={'it = 0': "Mb0 = snapshot(Mb)", 'ma = Mb[u] - 1': "assume(lemma_modularity(B, Mb, n))",
+                 'mb = np.argmax(dQ)': "check('argmax-attains-max', dQ[mb] == max_dq); check('move-changes-module', mb != ma)"},
+    ensures=[('level-never-lowers-the-objective', "QrawB(B, Mb, n0) >= QrawB(B, Mb0, n0)"),
+             ('bookkeeping-consistent-at-level-end', "forall(lambda x, mm: implies(And(inr(x, n0), inr(mm, n0)), Hnm[x, mm] == modsum(B, Mb, x, mm, n0)))")])
